@@ -45,8 +45,11 @@ type OwnCodec struct {
 	calls []string
 }
 
-func (o *OwnCodec) Size() int                { o.calls = append(o.calls, "Size"); return len(o.b) }
-func (o *OwnCodec) Marshal() ([]byte, error) { o.calls = append(o.calls, "Marshal"); return append([]byte{}, o.b...), nil }
+func (o *OwnCodec) Size() int { o.calls = append(o.calls, "Size"); return len(o.b) }
+func (o *OwnCodec) Marshal() ([]byte, error) {
+	o.calls = append(o.calls, "Marshal")
+	return append([]byte{}, o.b...), nil
+}
 func (o *OwnCodec) Unmarshal(p []byte) error {
 	o.calls = append(o.calls, "Unmarshal")
 	o.b = append([]byte{}, p...)
